@@ -374,11 +374,15 @@ fn child(id: &str) {
             let u = Arc::new(build(point, unmet));
             let u2 = u.clone();
             let point = point.to_string();
+            let (go_tx, go_rx) = mpsc::channel::<()>();
             let h = std::thread::spawn(move || {
                 let u = u2;
+                // only start once the main thread has given up its handle: this thread is the last owner
+                let _ = go_rx.recv();
                 body(&u, &point);
             });
             drop(u);
+            let _ = go_tx.send(());
             if h.join().is_err() {
                 std::process::exit(101);
             }
